@@ -169,6 +169,6 @@ def unOpWords (op : Nat → Nat) (l lo len : Nat) : Nat :=
 
 /-- `count_set_bits_offset` via chunks: sum of popcounts of the padded words. -/
 def countSetBits (buf off len : Nat) : Nat :=
-  ((iterPadded buf off len).map (fun w => popcount w 64)).foldl (· + ·) 0
+  ((iterPadded buf off len).map (fun w => popcount w 64)).sum
 
 end ArrowModel.C19
